@@ -11,6 +11,7 @@ of mostly the Jacobian and reference cell data.
 # SPDX-License-Identifier:    LGPL-3.0-or-later
 
 import warnings
+from collections import defaultdict
 from functools import reduce
 from itertools import combinations
 
@@ -58,7 +59,9 @@ class GeometryLoweringApplier(MultiFunction):
         """Initialise."""
         MultiFunction.__init__(self)
         # Store preserve_types as boolean lookup table
-        self._preserve_types = [False] * Expr._ufl_num_typecodes_
+        # Keyed by typecode; a mapping rather than a list sized now, so that
+        # types registered later are simply not preserved
+        self._preserve_types = defaultdict(bool)
         for cls in preserve_types:
             self._preserve_types[cls._ufl_typecode_] = True
 
